@@ -174,6 +174,9 @@ func init() {
 			inc := RunInc(w, c.Tape, nil, 0, IncOpts{KillAt: -1, Strategy: strategyOf(c.Tape), Trace: c.Trace})
 			c.Absorb(inc)
 			if v := flowOracle(inc, ex); v.Status != "ok" {
+				if v.Status == "violation" {
+					return Skipped(v)
+				}
 				return v
 			}
 			return auditOracle(inc.Sim.FS.Root, ex, instsByKey(inc))
@@ -310,7 +313,7 @@ func init() {
 				inc1 := RunInc(&w1, c.Tape, nil, 0, IncOpts{KillAt: -1, Strategy: strategyOf(c.Tape), Trace: c.Trace})
 				c.Absorb(inc1)
 				if v := flowOracle(inc1, Eval(&w1)); v.Status != "ok" {
-					return v
+					return foreign(v)
 				}
 				before := auditFilesOf(inc1.Sim.FS.Root, ex)
 				inc2 := RunInc(w, c.Tape, inc1.Sim.FS.Root, inc1.Sim.FS.NextIno, IncOpts{KillAt: -1, Strategy: strategyOf(c.Tape), Trace: c.Trace})
@@ -319,10 +322,10 @@ func init() {
 					return v
 				}
 				if !completedOK(inc2) {
-					return Viol("resume-no-completion", "end="+inc2.Sim.End.String(), "Run after RunTo%v does not complete: %s", w1.RunTo, endDesc(inc2))
+					return Skipped(Viol("resume-no-completion", "end="+inc2.Sim.End.String(), "Run after RunTo%v does not complete: %s", w1.RunTo, endDesc(inc2)))
 				}
 				if cl, d := checkFinalFiles(inc2.Sim.FS.Root, ex, false); cl != "" {
-					return Viol(cl, "", "after RunTo%v + Run: %s", w1.RunTo, d)
+					return Skipped(Viol(cl, "", "after RunTo%v + Run: %s", w1.RunTo, d))
 				}
 				return check(inc2.Sim.FS.Root, before, inc1, inc2)
 			case 1: // every crash state
@@ -330,7 +333,7 @@ func init() {
 				inc := RunInc(w, c.Tape, nil, 0, IncOpts{KillAt: -1, Strategy: strategyOf(c.Tape), Trace: c.Trace, Snapshots: true})
 				c.Absorb(inc)
 				if v := flowOracle(inc, ex); v.Status != "ok" {
-					return v
+					return foreign(v)
 				}
 				for _, sn := range inc.Snaps {
 					c.CrashStates++
@@ -362,7 +365,7 @@ func init() {
 				inc := RunInc(w, c.Tape, nil, 0, IncOpts{KillAt: -1, Strategy: strategyOf(c.Tape), Trace: c.Trace})
 				c.Absorb(inc)
 				if v := flowOracle(inc, ex); v.Status != "ok" {
-					return v
+					return foreign(v)
 				}
 				root := inc.Sim.FS.Snapshot()
 				deleted := 0
@@ -389,10 +392,10 @@ func init() {
 					return v
 				}
 				if !completedOK(inc2) {
-					return Viol("resume-no-completion", "end="+inc2.Sim.End.String(), "re-run after deleting %d output(s) does not complete: %s", deleted, endDesc(inc2))
+					return Skipped(Viol("resume-no-completion", "end="+inc2.Sim.End.String(), "re-run after deleting %d output(s) does not complete: %s", deleted, endDesc(inc2)))
 				}
 				if cl, d := checkFinalFiles(inc2.Sim.FS.Root, ex, false); cl != "" {
-					return Viol(cl, "", "after deleting %d output(s) and re-running: %s", deleted, d)
+					return Skipped(Viol(cl, "", "after deleting %d output(s) and re-running: %s", deleted, d))
 				}
 				return check(inc2.Sim.FS.Root, before, inc, inc2)
 			}
